@@ -672,7 +672,7 @@ func Worker(shard, n int, tier string) *engine.Result {
 		}
 		depth := 3
 		if tier == "thorough" {
-			depth = 4
+			depth = 6
 		}
 		var rec func(d int, path []string, refSeq uint64, delivered map[string]bool)
 		rec = func(d int, path []string, refSeq uint64, delivered map[string]bool) {
@@ -712,7 +712,7 @@ func Worker(shard, n int, tier string) *engine.Result {
 	return res
 }
 
-// batches delivers every envelope of <= 3 (thorough 4) Ethereum messages drawn from
+// batches delivers every envelope of <= 3 (thorough 6) Ethereum messages drawn from
 // {S(n), S(n+1), T(m), T(m+1)} (repetition allowed).  Reference: walking the messages in order,
 // each nonce must equal its sender's running sequence; otherwise the whole transaction must be
 // rejected without any effect.
@@ -754,7 +754,7 @@ func (f *fixture) batches(kind string, n0 uint64, shard, n int, idx *int, res *e
 	}
 	maxLen := 3
 	if tier == "thorough" {
-		maxLen = 4
+		maxLen = 6
 	}
 	var rec func(cur []el)
 	rec = func(cur []el) {
@@ -860,7 +860,7 @@ func Run(tier string) int {
 	return engine.Finish(res, engine.Meta{
 		Property: Prop, Tier: tier, Level: "model_checking", Start: start,
 		Rule:   "7 transaction kinds x (every single-field post-signing mutation, each followed by the untouched original) + all orders <= depth over {t(n), t(n+1), t(n+1)@otherchain, t(n)@otherchain, t(n+2), mutated t(n)} and all multi-message Ethereum envelopes <= depth over two senders' {current, next nonce} + a message signed for another chain id / without chain id, through the real DeliverTx on branches; reference automaton = sequence number + validly signed payload set; non-trivial = mutation case delivered",
-		Bounds: map[string]any{"order_depth": map[string]int{"quick": 3, "thorough": 4}, "kinds": kinds},
+		Bounds: map[string]any{"order_depth": map[string]int{"quick": 3, "thorough": 6}, "batch_len": map[string]int{"quick": 3, "thorough": 6}, "kinds": kinds},
 		Assumptions: []string{
 			"DeliverTx path only (CheckTx shares the ante chain; its check state is not branched by the harness)",
 			"fixture: base fee 1e9 enabled so that dynamic-fee transactions are admissible; fees are paid, the oracle compares sequence and balances of sender, recipient and a third account",
